@@ -51,7 +51,8 @@ def src(t):
     if t[0] == "v":
         return t[1]
     if t[0] == "it":
-        return "Iterable[%s]" % src(t[1])
+        # ("it", ("any",), "bare"): the annotation is a bare `Iterable` - an iterable of unknown items (F55)
+        return "Iterable" if len(t) > 2 else "Iterable[%s]" % src(t[1])
     if t[0] == "any":
         return "Any"
     return t[1] + ("[%s]" % ", ".join(src(a) for a in t[2]) if t[2] else "")
@@ -137,6 +138,7 @@ class Spec:
               "base": inst(BASE), "mid": inst(MID), "leaf": inst("Leaf"), "fixed": ("c", "Fixed", []),
               "grouped": inst("Grouped"), "blocks": inst("Blocks"), "nested": nest(r.choice(E + [("p", "int")]), 2),
               "it": inst("MyIter"), "e0s": ("it", E[0]), "e1s": ("it", E[1]), "mids": ("it", inst(MID)),
+              "bare": ("it", ("any",), "bare"),
               "e0": E[0], "rec": ("c", "Rec", []), "subfixed": ("c", "SubFixed", []), "gooditems": ("c", "GoodItE0", []),
               "mybox": ("c", "MyBoxI", []), "mybox2": ("c", "MyBoxI2", []), "goods": ("it", ("c", "GoodItE0", []))}
         # a dataclass whose fields are annotated with forward references (strings), as user code writes them
